@@ -14,6 +14,8 @@ pub fn gen_case(fam: &str, r: &mut Rng, i: u64, p: &HashMap<String, String>) -> 
         "c11" => c11(r, i, p),
         "c14" => c14(r, i, p),
         "c07" => c07(r, i, p),
+        "c05" => c05(r, i, p),
+        "c06" => c06(r, i, p),
         "c08" => c08(r, i, p),
         "c09" => c09(r, i, p),
         "c13" => c13(r, i, p),
@@ -406,4 +408,72 @@ fn c07(r: &mut Rng, i: u64, p: &HashMap<String, String>) -> Vec<Value> {
     let mut runs = vec![run(&doc_html(&body), w, cfg(deco, vec![]), "string")];
     for it in &items { runs.push(run(&doc_html(it), w - pw, cfg(deco, vec![]), "string")); }
     vec![json!({"id": id("c07", i), "meta": meta, "runs": runs})]
+}
+
+/// Tilings of `ncols` columns into colspans for one row.
+fn tiling(r: &mut Rng, ncols: usize, spans: bool) -> Vec<usize> {
+    let mut v = vec![]; let mut c = 0;
+    while c < ncols { let s = if spans && r.chance(1, 3) { 1 + r.below((ncols - c) as u64) as usize } else { 1 }; v.push(s); c += s; }
+    v
+}
+const CELLCH: &[char] = &['a','b','c','d','e','f','g','h','i','j','k','l','m','n','o','p','q','r','s','t','u','v','w','x','y','z','α','β','γ','δ','ε','ζ','η','θ','ι','κ','λ','μ'];
+/// A regular table: every row tiles the same number of columns.  Returns (table node, cell records).
+/// `uniq`: fill cells with copies of a per-cell unique character (C06); else ordinary tokens (C05).
+fn regular_table(g: &mut G, nrows: usize, ncols: usize, spans: bool, nest: bool, uniq: bool, next: &mut usize, cells: &mut Vec<Value>, top: bool) -> N {
+    let mut rows = vec![];
+    for ri in 0..nrows {
+        let mut tds = vec![]; let mut c0 = 0;
+        for s in tiling(g.r, ncols, spans) {
+            let class = g.r.below(10);
+            let mut kids: Vec<N> = vec![];
+            let mut count = 0usize;
+            let ch = CELLCH[*next % CELLCH.len()];
+            if nest && class == 9 && top {
+                let (nr, nc) = (1 + g.r.below(2) as usize, 1 + g.r.below(3) as usize);
+                kids.push(regular_table(g, nr, nc, spans, false, uniq, next, cells, false));
+            } else if class >= 2 {
+                let nwords = match class { 2 | 3 | 4 => 1, 5 | 6 => 1 + g.r.below(3), _ => 2 + g.r.below(6) };
+                let mut t = String::new();
+                for wi in 0..nwords {
+                    if wi > 0 { t.push(' '); }
+                    if uniq { let len = 1 + g.r.below(if class == 8 { 14 } else { 5 }); for _ in 0..len { t.push(ch); count += 1; } }
+                    else { t.push_str(&g.token()); }
+                }
+                if class == 7 { kids.push(N::T(t.clone())); kids.push(N::el("br", vec![])); let extra: String = if uniq { count += 2; format!("{}{}", ch, ch) } else { g.token() }; kids.push(N::T(extra)); }
+                else if class == 6 && !uniq { kids.push(N::T(format!("{}一語", t))); }
+                else { kids.push(N::T(t)); }
+            }
+            if uniq && top { cells.push(json!({"r": ri + 1, "c0": c0 + 1, "c1": c0 + s, "code": ch as u32, "n": count})); *next += 1; }
+            let mut td = N::el(if g.r.chance(1, 6) { "th" } else { "td" }, kids);
+            if s > 1 { td.add_attr("colspan", format!("{}", s)); }
+            tds.push(td); c0 += s;
+        }
+        rows.push(N::el("tr", tds));
+    }
+    if g.r.chance(1, 3) && rows.len() >= 2 {
+        let k = 1 + g.r.below(rows.len() as u64 - 1) as usize;
+        let tail = rows.split_off(k);
+        N::el("table", vec![N::el("thead", rows), N::el("tbody", tail)])
+    } else { N::el("table", rows) }
+}
+/// C05: one regular table (1..5 x 1..6, tiling colspans, cells empty/short/long/multi-line/wide, nested
+/// regular tables, thead/tbody), plain decorator with borders, widths 1..100.
+fn c05(r: &mut Rng, i: u64, p: &HashMap<String, String>) -> Vec<Value> {
+    let (nrows, ncols) = (1 + r.below(5) as usize, 1 + r.below(6) as usize);
+    let spans = r.chance(1, 2); let nest = r.chance(1, 3);
+    let mut g = G::new(r, Feat::all());
+    let mut cells = vec![]; let mut next = 0;
+    let t = regular_table(&mut g, nrows, ncols, spans, nest, false, &mut next, &mut cells, true);
+    let w = if r.chance(1, 2) { r.range(1, 30) } else { r.range(1, wmax(p, 100)) };
+    vec![json!({"id": id("c05", i), "runs": [run(&doc_html(&[t]), w, cfg("plain", vec![]), "string")]})]
+}
+/// C06: as C05 without nesting, every non-empty cell filled with copies of its own unique character.
+fn c06(r: &mut Rng, i: u64, p: &HashMap<String, String>) -> Vec<Value> {
+    let (nrows, ncols) = (1 + r.below(5) as usize, 1 + r.below(6) as usize);
+    let spans = r.chance(1, 2);
+    let mut g = G::new(r, Feat::all());
+    let mut cells = vec![]; let mut next = 0;
+    let t = regular_table(&mut g, nrows, ncols, spans, false, true, &mut next, &mut cells, true);
+    let w = if r.chance(1, 2) { r.range(1, 30) } else { r.range(1, wmax(p, 100)) };
+    vec![json!({"id": id("c06", i), "meta": {"cells": cells}, "runs": [run(&doc_html(&[t]), w, cfg("plain", vec![]), "string")]})]
 }
